@@ -1,6 +1,8 @@
 --------------------------- MODULE Trace_TreeSim ---------------------------
 (* C18 trace validation.  One event = one simulator call executed TWICE from *)
-(* equal generator states with fresh, equal arguments (kind "script": the   *)
+(* equal generator states: run 1 on the argument objects with their history *)
+(* (earlier calls, modifications in place), run 2 on freshly built arguments *)
+(* equal to their CURRENT state (kind "script": the                         *)
 (* generator returns the decisions of a TLC behaviour; kind "seed": a real  *)
 (* random.Random(seed)).  TLC evaluates the clauses of the property on the  *)
 (* projected results; lengths are fixed-point integers (e.scale units per   *)
@@ -15,8 +17,10 @@ VARIABLES l, bad
 V(c, k) == <<[clause |-> c, class |-> k]>>
 
 Tol(e, g) == (e.scale * e.prec[1]) \div e.prec[2] + g.n
-\* call site / input shape; "+restart" when the run went through restart-after-total-extinction
+\* call site / input shape; "+restart" when the run went through restart-after-total-extinction; "@<ops>" when the
+\* argument objects had a history (e.hops: earlier call on the same objects, modifications in place)
 Class(e) == e.api \o "/" \o e.shape \o (IF e.model \in {"bd", "fast"} /\ (e.nclear1 > 0 \/ e.nclear2 > 0) THEN "+restart" ELSE "")
+                  \o (IF e.hops # "" THEN "@" \o e.hops ELSE "")
 FailsOn(e, g, gsp) ==
     CASE e.model \in {"bd", "fast", "upb"} -> BDFails(g, e.N, Tol(e, g))
       [] e.model = "king" -> KingFails(g, e.ntaxa, Tol(e, g))
@@ -35,7 +39,8 @@ Judge(e) ==
     LET cls == Class(e)
         f1 == IF e.raised1 = "" THEN FailsOn(e, e.g1, e.gsp1) ELSE <<>>
         f2 == IF e.raised2 = "" /\ e.g2 # e.g1 THEN SelectSeq(FailsOn(e, e.g2, e.gsp2), LAMBDA c : c \notin SeqToSet(f1)) ELSE <<>>
-    IN (IF e.raised1 # "" \/ e.raised2 # "" THEN V("C18.Raised", cls \o ":" \o e.raised1 \o "|" \o e.raised2) ELSE <<>>)
+    IN (IF e.raised1 # "" \/ e.raised2 # "" \/ e.hraised # ""
+        THEN V("C18.Raised", cls \o ":" \o e.hraised \o "|" \o e.raised1 \o "|" \o e.raised2) ELSE <<>>)
        \o Verdicts(f1 \o f2, cls)
        \o (IF e.raised1 = e.raised2 /\ e.g1 = e.g2 /\ e.lenx1 = e.lenx2 /\ e.txl1 = e.txl2 THEN <<>> ELSE V("C18.Reproducible", cls))
        \o (IF e.via = "rng" /\ (e.ngcalls1 # 0 \/ e.ngcalls2 # 0 \/ e.py1[1] # e.py1[2] \/ e.py2[1] # e.py2[2])
